@@ -322,7 +322,18 @@ class CallMixin:
 
     # ------------------------------------------------------------------ verify one target
     def verify_target(self, con):
-        """generate all obligations of one contract target"""
+        """generate all obligations of one contract target; a contract that does not fit the current code any more (renamed parameter or
+        local, removed field, construct outside the subset) makes the target unsupported - undecided, never an alarm and never a crash"""
+        n0 = len(self.obligations)
+        try:
+            return self._verify_target(con)
+        except (Unsupported, AttributeError, KeyError, TypeError, IndexError) as ex:
+            del self.obligations[n0:]
+            why = str(ex) if isinstance(ex, Unsupported) else f"MOVED: a contract clause does not fit the current code ({type(ex).__name__}: {ex})"
+            self.unsupported.append((con.target, why))
+            return False
+
+    def _verify_target(self, con):
         modname, fdef, cls = loader.find_function(con.target.split("#")[0].replace(".__wrapped__", ""))
         self.current = (con, modname, fdef, cls)
         self.modname, self.cls = modname, cls
